@@ -630,8 +630,15 @@ protected:
                          , png_size_t length
                          )
     {
-        static_cast<Device*>(png_get_io_ptr(png_ptr) )->read( data
-                                                            , length );
+        std::size_t const count = static_cast<Device*>(png_get_io_ptr(png_ptr) )->read( data
+                                                                                     , length );
+
+        // libpng must be told about a short read: it would otherwise parse whatever the buffer holds
+        // as further chunks, which does not terminate for a truncated file
+        if( count < length )
+        {
+            png_error( png_ptr, "Read Error" );
+        }
     }
 
     static void flush( png_structp png_ptr )
